@@ -83,7 +83,8 @@ CHECKS["C16"] = dict(
          "add_mixins, register / unregister on any node, calls on any node at any point, with and without linkback. "
          "A derivation-graph model decides, per modification, must-refuse / must-succeed / undetermined from the routes to "
          "used descendants, and gives each node's effective method set; after every modification every used node, and at the end "
-         "every node, must equal a plain fresh function registering that set.",
+         "every node, must equal a plain fresh function registering that set (with by-name recursion: paired with a fresh copy "
+         "of the function the name denotes).",
     design_ref="DESIGN.md 4/C16",
     note="One method per (types, priority) per node; mixin parents with disjoint keys; mixed linkback/plain routes accept either "
          "verdict. Differential against the library's own fresh build. Sampling.",
@@ -96,7 +97,9 @@ CHECKS["C04"] = dict(
          "over worlds with static, union, intersection, dependent, Literal, type[...], keyword and hook annotations and bodies "
          "that delegate through recurse / call_next / f.next. Every operation must equal the same call made first on a fresh "
          "function. A separate fault-injecting batch interrupts (or fails a hook in) one call of the history at a seeded step; "
-         "only that call is exempt.",
+         "only that call is exempt. Each call is also compared with the same call made first on a fresh function in an untouched "
+         "process image (per-worker fork server), some histories run to a second function of the same module, contain a flood of "
+         "first-time types, or are preceded by a ghost world (same class names, other relations) that dies first (address reuse).",
     design_ref="DESIGN.md 4/C04",
     note="Differential against the library's own first call on a fresh function; canonical set order. Sampling; cache-state "
          "abstraction counts reported as reach measure.",
@@ -106,7 +109,9 @@ CHECKS["C20"] = dict(
     category="exploration",
     text="Seeded histories: warm-up of every successful corpus call, then 5-40 operations mixing monitored repeats with "
          "disturbances (failing calls of other combinations, calls interrupted at a seeded step or hit by a hook failure, resolve, "
-         "display_resolution, register/unregister followed by one allowed re-warm). During each repeat no user hook counter may "
+         "display_resolution, introspection, deriving children, refused registrations, unrelated ABC / generic registrations, a flood "
+         "of first-time types, a fork of the process, register/unregister followed by one allowed re-warm), also with the function "
+         "being a linked child, and a threaded variant under the C19 scheduler. During each repeat no user hook counter may "
          "move and the tracer must see no call of typeorder / subclasscheck / sort_types / MultiTypeMap.mro / resolve / "
          "TypeMap.__missing__.",
     design_ref="DESIGN.md 4/C20",
